@@ -126,8 +126,12 @@ def reduce {α : Type} (op : α → α → α) (init : Option α) (a : Arr α) (
     Option (Arr (Option α)) :=
   (removeDims a.shape axis keep).map (fun s => ⟨s, reduceElem op init a axis keep⟩)
 
-/-- loop of `accumulate_t::operator()`: `start = (i == axis) ? 0 : s; stop = s + 1` with `s = at(indices, i)`;
-    the comparison is made in `int` and the axis is *not* normalised (a negative axis never matches) -/
+/-- `accumulate_t::operator()`: `m_axis = axis; if (m_axis < 0) m_axis += dim` (NumPy's meaning of a negative axis;
+    an axis outside `[-dim, dim)` is left as it is and matches no position) -/
+def accumulateAxis (dim : Nat) (axis : Int) : Int := if axis < 0 then axis + (dim : Int) else axis
+
+/-- loop of `accumulate_t::operator()`: `start = (i == m_axis) ? 0 : s; stop = s + 1` with `s = at(indices, i)`;
+    the comparison is made in the signed common index type -/
 def accumulateSlices (axis : Int) (d : Idx) : Nat → Shape → Option (List (Nat × Nat))
   | _, [] => some []
   | i, _ :: ss =>
@@ -136,7 +140,7 @@ def accumulateSlices (axis : Int) (d : Idx) : Nat → Shape → Option (List (Na
     | some s => (accumulateSlices axis d (i+1) ss).map ((if (i : Int) = axis then 0 else s, s+1) :: ·)
 
 def accumulateElem {α : Type} (op : α → α → α) (a : Arr α) (axis : Int) (d : Idx) : Option α :=
-  match accumulateSlices axis d 0 a.shape with
+  match accumulateSlices (accumulateAxis a.shape.length axis) d 0 a.shape with
   | none => none
   | some sl => reducer op none (prod (sliceShape sl)) (slicedFlatElem a sl)
 
@@ -156,7 +160,7 @@ def reduceReads (s : Shape) (axis : AxisArg) (keep : Bool) (d : Idx) : Option (L
 
 /-- the source multi-indices `accumulate_t::operator()(d…)` reads, in fold order -/
 def accumulateReads (s : Shape) (axis : Int) (d : Idx) : Option (List Idx) :=
-  (accumulateSlices axis d 0 s).map slicedReads
+  (accumulateSlices (accumulateAxis s.length axis) d 0 s).map slicedReads
 
 /-- `index::mean_divisor(shape, normalised axis)`: product of the reduced extents (`none`: `at` out of range) -/
 def meanDivisor (shape : Shape) : Option (List Nat) → Option Nat
